@@ -160,14 +160,41 @@ package gnmi
 //@   safe
 //@   modifies nothing
 
-// no-panic sweep (C12) of the parts of the Get path that are within reach; Get, processRequest,
-// getUpdate, checkOpaAllowed and processStateOrOperationalRequest are NOT swept (they need
-// contracts on the configuration store contents, the OPA client and the southbound Get)
+// no-panic sweep (C12) of the parts of the Get path that are within reach: addTarget, reportAllTargets,
+// getUpdate and createUpdate. Get, processRequest (goroutines, select; its invariants over the collected
+// targets do not discharge), checkOpaAllowed (HTTP client; trusted) and processStateOrOperationalRequest
+// are NOT swept.
 //@ func (*Server).addTarget(s, ctx, targetID, targets, overrides) (err)
 //@   props C12
 //@   safe
-//@   requires serverWF(s) && targets != nil && ctx != nil
+//@   requires serverWF(s) && targets != nil && ctx != nil && getTargetsWF(targets)
+//@   modifies mapOf(targets), lastTopoGetOK, lastGetPluginOK, storedCfgCommitted, storedCfgApplied, readCfgOK, readCfgIndex, readCfgProposed, readCfgCommitted, readCfgApplied, readCfgState, readCfgTerm, readCfgAppliedTerm, readCfgMaster, readValuesDom, readValuesVal
+//@   ensures getTargetsWF(targets) && (err == nil ==> (targetID in targets))
+//@   ensures errWF(err)
 //@ func (*Server).reportAllTargets(s, ctx, encoding, groups) (resp, err)
 //@   props C12
 //@   safe
 //@   requires serverWF(s) && ctx != nil
+
+//@ func createUpdate(prefix, path, configValues, encoding) (updates, err)
+//@   props C12
+//@   safe
+//@   requires forall cv in configValues :: cv != nil
+//@   ensures errWF(err)
+//@   loop 1 invariant true
+
+// the stored configuration of a target as the store hands it out: no nil value
+//@ spec cfgValuesWF(c *configapi.Configuration) bool = c != nil && (forall k string :: (k in c.Values) ==> c.Values[k] != nil)
+// the targets a Get request has collected: each with the configuration read for it
+//@ spec getTargetsWF(targets map[configapi.TargetID]*targetInfo) bool = forall t string :: (t in targets) ==> targets[t] != nil && allocated(targets[t]) && cfgValuesWF(targets[t].configuration)
+//@ func (*Server).getUpdate(s, ctx, targetInfo, prefix, pathInfo, encoding, groups) (u, err)
+//@   props C12
+//@   safe
+//@   requires serverWF(s) && targetInfo != nil && pathInfo != nil && ctx != nil && cfgValuesWF(targetInfo.configuration)
+//@   ensures errWF(err)
+//@   loop 1 invariant forall e in configValues :: e != nil
+//@   loop 2 invariant (forall e in configValuesAllowed :: e != nil) && (forall e in filteredValues :: e != nil)
+//@ func (*Server).checkOpaAllowed(s, ctx, targetInfo, configValues, groups) (r, err)
+//@   trusted
+//@   ensures forall e in r :: e != nil
+//@   ensures errWF(err)
